@@ -129,6 +129,8 @@ class Ctx:
             self._raw[config] = raw
             self._facts[config] = inline.InlinedFacts(raw)
             meta["inlined_callers"] = len(self._facts[config].inlined_into)
+            if getattr(self._facts[config], "scalarised", None):
+                meta["argument_structs_taken_apart"] = self._facts[config].scalarised
             self.config_meta[config] = meta
         return self._facts[config]
 
